@@ -378,6 +378,16 @@ def _pickle(check: Check, rule_prefix: str = 'R-PAIR'):
   check.ob(rule_prefix + '.pickle', sv, 'pickle.dump(state, f[wb]) / pickle.load(f[rb])', ok,
            f'state is pickled to a binary file and unpickled from a binary file (dump={dump}, load={load}, modes '
            f'{gfile_mode(sf)}/{gfile_mode(lf)})')
+  # the path exists only once the dump has completed: write to a temporary name, rename on the normal path only
+  from fjsa.rules.atomic import AtomicAnalysis
+  for call, where in AtomicAnalysis(repo).renames_on_failure_path(sf):
+    check.ob(rule_prefix + '.pickle-atomic', sv, txt(call)[:80], False,
+             f'the rename that publishes the state file sits in a `{where}` block: it also runs after a failed dump', node=call, exact=True)
+  summ = AtomicAnalysis(repo).summary(sv)
+  how = summ.get(sv.positional_params[1]) if len(sv.positional_params) > 1 else None
+  check.ob(rule_prefix + '.pickle-atomic', sv, f'save_state(state, {sv.positional_params[1] if len(sv.positional_params) > 1 else "path"})',
+           how == 'atomic', f'the state file is published by rename after a complete dump, and never on the way out of a failed dump '
+           f'(summary: {how}): a torn file under the final name cannot be told from a checkpoint')
   # load reads the path it is given
   okp = False
   for _, c in lf.calls():
